@@ -2,9 +2,19 @@
    "No conflict" is [no_conf]: every decision has conflict = false. *)
 From Coq Require Import String.
 From Coq Require Import List NArith ZArith Bool Lia.
-From NB Require Import Base.Res Base.Json Base.PyStr Diff.DiffFormat Diff.Patch Diff.GenericDiff
-     Diff.Codec Merge.SortKey Merge.Chunks Merge.Decisions Merge.Apply Merge.MergeGeneric
-     Gen.MergeFacts.
+From NB Require Import Base.Res.
+From NB Require Import Base.Json.
+From NB Require Import Base.PyStr.
+From NB Require Import Diff.DiffFormat.
+From NB Require Import Diff.Patch.
+From NB Require Import Diff.GenericDiff.
+From NB Require Import Diff.Codec.
+From NB Require Import Merge.SortKey.
+From NB Require Import Merge.Chunks.
+From NB Require Import Merge.Decisions.
+From NB Require Import Merge.Apply.
+From NB Require Import Merge.MergeGeneric.
+From NB Require Import Gen.MergeFacts.
 Import ListNotations.
 
 Definition no_conf (B : list decision) : Prop := Forall (fun d => d_conflict d = false) B.
